@@ -293,6 +293,7 @@ def main():
     ap.add_argument('--jobs', type=int, default=int(os.environ.get('VERIF_JOBS', '16')))
     ap.add_argument('--strict', action='store_true')
     ap.add_argument('--keep', action='store_true')
+    ap.add_argument('--verbose', '-v', action='store_true')
     ap.add_argument('--no-evidence', action='store_true')
     ap.add_argument('--replay', default='')
     ARGS = ap.parse_args()
@@ -367,6 +368,9 @@ def run(pid, seed, t0):
                 log('  %-40s %-18s paths=%-5d obl=%-4d viol=%d inconcl=%d %.1fs' % (
                     r['harness'].split('.H_')[-1], (r.get('tag') or json.dumps(r['presets']))[:18] if r['presets'] else '', r['paths'],
                     len(r['obligations']), nv, nu, r['wall']))
+                if ARGS.verbose:
+                    for o in r['obligations']:
+                        log('      %-9s %-9s %6.2fs %-10s %s' % (o['verdict'], o['solver'], o['time'], o['kind'], o['label'][:90]))
     return finish(pid, seed, t0, t_export, results, known)
 
 
